@@ -3,6 +3,7 @@
    per-subscriber bounded queues and anyio's direct hand-off to a waiting receiver.
    Used by C10 and C11.  Definitions only. *)
 From Coq Require Import List Bool Arith.
+From Asphalt Require Import Gen.Gen_signal.
 Import ListNotations.
 
 (* ---------- identifiers ---------- *)
@@ -52,7 +53,10 @@ Record sstate := SS {
 Definition init : sstate := SS [] [] 0.
 
 (* ---------- the bound-signal table ---------- *)
-Definition ia_eqb (x y : inst * attr) : bool := Nat.eqb (fst x) (fst y) && Nat.eqb (snd x) (snd y).
+(* the key of the table as the translator read it from Signal.__get__ on this run (Gen/Gen_signal.v): the
+   instance (by identity) and, if the key includes it, the attribute name *)
+Definition ia_eqb (x y : inst * attr) : bool :=
+  Nat.eqb (fst x) (fst y) && (if sig_key_includes_topic then Nat.eqb (snd x) (snd y) else true).
 Fixpoint lookup_bound (k : inst * attr) (l : list ((inst * attr) * chanid)) : option chanid :=
   match l with
   | [] => None
@@ -185,7 +189,8 @@ Fixpoint burst (s : sstate) (l : list (chanid * (nat * ecls))) : sstate * list d
       match owner_of c (bound s) with
       | None => let '(s', rs) := burst s r in (s', DNoChan :: rs)
       | Some (i, a) =>
-          if negb (cls_sub cl (attr_cls a)) then let '(s', rs) := burst s r in (s', DTypeErr :: rs)
+          if negb (if sig_class_check_by_isinstance then cls_sub cl (attr_cls a) else Nat.eqb cl (attr_cls a))
+          then let '(s', rs) := burst s r in (s', DTypeErr :: rs)
           else
             let '(sts, w) := deliver_all c (Ev id cl i a) (streams s) in
             let '(s', rs) := burst (SS (bound s) sts (warnings s + w)) r in
